@@ -142,6 +142,29 @@ theorem cover_snoc (b : List Rec) (h : Int) (n : Nat) (L : List Rec) (x : Rec)
     simp only [NoGap, hx, hb, and_true]; omega
   · rw [top_append]; simp only [top, hx]; omega
 
+theorem noGap_top_lt (b : List Rec) (h : Int) (L : List Rec) (hb : h + 1 ≤ b.length) :
+    NoGap b h L → top h L + 1 ≤ b.length := by
+  induction L generalizing h with
+  | nil => intro _; simpa [top] using hb
+  | cons x L ih =>
+    simp only [NoGap, top]
+    intro ⟨_, h2, h3⟩
+    have hl : x.seqnum < b.length := (List.getElem?_eq_some_iff.mp h2).1
+    exact ih _ (by omega) h3
+
+/-- what the receiver already holds (parked on its new connection) in front of a stream that covers
+    everything still covers everything -/
+theorem cover_prefix (b : List Rec) (h : Int) (n : Nat) (P Q : List Rec) (hn : b.length = n) (hh : h + 1 ≤ n) :
+    NoGap b h P → Cover b h n Q → Cover b h n (P ++ Q) := by
+  intro hP ⟨hQ1, hQ2⟩
+  have h1 := le_top h P
+  have h2 := noGap_top_lt b h P (by omega) hP
+  refine ⟨?_, ?_⟩
+  · rw [noGap_append]; exact ⟨hP, noGap_mono b h _ Q h1 hQ1⟩
+  · rw [top_append]
+    have e : top h P = max h (top h P) := by omega
+    rw [e, top_max]; omega
+
 /-! ### the operations, field by field -/
 
 theorem pauseProducing_eq (s : Side) : pauseProducing s = { s with paused := true } := by
@@ -166,7 +189,8 @@ theorem drain_spec (U : List Rec) : ∀ (s : Side),
     (drain s U).high = s.high ∧ (drain s U).dispatched = s.dispatched ∧ (drain s U).built = s.built ∧
     acksOf (drain s U).out = acksOf s.out ∧
     dataOf (drain s U).out ++ (drain s U).unsent = dataOf s.out ++ U ∧
-    ((drain s U).paused = false → (drain s U).unsent = []) := by
+    ((drain s U).paused = false → (drain s U).unsent = []) ∧
+    (drain s U).parked = s.parked ∧ (drain s U).l4 = s.l4 := by
   induction U with
   | nil => intro s; simp [drain]
   | cons r U ih =>
@@ -191,23 +215,25 @@ structure DirInv (s r : Side) : Prop where
   disp : r.dispatched = s.built.take (r.high + 1).toNat
   /-- `_outbound_queue` still holds everything the receiver has not seen -/
   q : Cover s.built r.high s.next s.queue
-  /-- connected: what is in flight, followed by what is still to be replayed, has no gap for the
-      receiver and reaches the newest record -/
-  up : s.conn = true → Cover s.built r.high s.next (dataOf s.out ++ s.unsent)
-  /-- not connected: nothing is waiting in `_queued_unsent`, the stale in-flight records are harmless -/
-  down : s.conn = false → s.unsent = [] ∧ NoGap s.built r.high (dataOf s.out) ∧ s.paused = true
-  /-- every ack in flight is at or below the receiver's watermark -/
-  acks : ∀ k ∈ acksOf r.out, (k : Int) ≤ r.high
+  /-- connected: what the receiver has parked, then what is in flight, then what is still to be
+      replayed, has no gap for the receiver and reaches the newest record -/
+  up : s.conn = true → Cover s.built r.high s.next (dataOf r.parked ++ (dataOf s.out ++ s.unsent))
+  /-- not connected: nothing is waiting in `_queued_unsent`, the stale parked / in-flight records are harmless -/
+  down : s.conn = false → s.unsent = [] ∧ NoGap s.built r.high (dataOf r.parked ++ dataOf s.out) ∧ s.paused = true
+  /-- every ack in flight (or parked at the sender) is at or below the receiver's watermark -/
+  acks : ∀ k, (k ∈ acksOf s.parked ∨ k ∈ acksOf r.out) → (k : Int) ≤ r.high
   /-- the replay loop only stops early when paused -/
   pu : s.conn = true → s.paused = false → s.unsent = []
 
 theorem DirInv.congr {s s' r r' : Side}
     (hs : s'.queue = s.queue ∧ s'.unsent = s.unsent ∧ s'.next = s.next ∧ s'.conn = s.conn ∧
-          s'.paused = s.paused ∧ s'.built = s.built ∧ dataOf s'.out = dataOf s.out)
-    (hr : r'.high = r.high ∧ r'.dispatched = r.dispatched ∧ (∀ k ∈ acksOf r'.out, k ∈ acksOf r.out))
+          s'.paused = s.paused ∧ s'.built = s.built)
+    (hr : r'.high = r.high ∧ r'.dispatched = r.dispatched)
+    (hdata : dataOf r'.parked ++ dataOf s'.out = dataOf r.parked ++ dataOf s.out)
+    (hacks : ∀ k, (k ∈ acksOf s'.parked ∨ k ∈ acksOf r'.out) → (k ∈ acksOf s.parked ∨ k ∈ acksOf r.out))
     (H : DirInv s r) : DirInv s' r' := by
-  obtain ⟨a1, a2, a3, a4, a5, a6, a7⟩ := hs
-  obtain ⟨b1, b2, b3⟩ := hr
+  obtain ⟨a1, a2, a3, a4, a5, a6⟩ := hs
+  obtain ⟨b1, b2⟩ := hr
   exact
     { blen := by rw [a6, a3]; exact H.blen
       bseq := by rw [a6]; exact H.bseq
@@ -215,9 +241,10 @@ theorem DirInv.congr {s s' r r' : Side}
       hhi := by rw [b1, a3]; exact H.hhi
       disp := by rw [b1, b2, a6]; exact H.disp
       q := by rw [a6, b1, a3, a1]; exact H.q
-      up := by rw [a4, a6, b1, a3, a7, a2]; exact H.up
-      down := by rw [a4, a6, b1, a7, a2, a5]; exact H.down
-      acks := by rw [b1]; exact fun k hk => H.acks k (b3 k hk)
+      up := by
+        rw [a4, a6, b1, a3, a2, ← List.append_assoc, hdata, List.append_assoc]; exact H.up
+      down := by rw [a4, a6, b1, a2, a5, hdata]; exact H.down
+      acks := by rw [b1]; exact fun k hk => H.acks k (hacks k hk)
       pu := by rw [a4, a5, a2]; exact H.pu }
 
 theorem dirInv_init : DirInv Side.init Side.init := by
@@ -233,7 +260,8 @@ theorem write_fields (s : Side) (b : Body) :
     (s.conn = true → dataOf (write s b).out ++ (write s b).unsent = (dataOf s.out ++ s.unsent) ++ [⟨s.next, b⟩]) ∧
     (s.conn = false → (write s b).out = s.out ∧ (write s b).unsent = s.unsent ∧ (write s b).paused = s.paused) ∧
     (s.unsent = [] → (write s b).unsent = []) ∧
-    (s.unsent ≠ [] → (write s b).paused = s.paused) := by
+    (s.unsent ≠ [] → (write s b).paused = s.paused) ∧
+    (write s b).parked = s.parked ∧ (write s b).l4 = s.l4 := by
   unfold write queueAndSend
   by_cases hc : s.conn = true
   · by_cases hu : s.unsent = []
@@ -242,7 +270,7 @@ theorem write_fields (s : Side) (b : Body) :
   · simp [hc]
 
 theorem dirInv_write {s r : Side} (H : DirInv s r) (b : Body) : DirInv (write s b) r := by
-  obtain ⟨f1, f2, f3, f4, _, _, _, f8, f9, f10, f11⟩ := write_fields s b
+  obtain ⟨f1, f2, f3, f4, _, _, _, f8, f9, f10, f11, f12, _⟩ := write_fields s b
   have hb : (s.built ++ [(⟨s.next, b⟩ : Rec)])[s.next]? = some ⟨s.next, b⟩ := by
     rw [← H.blen]; simp
   have hhi := H.hhi
@@ -264,30 +292,41 @@ theorem dirInv_write {s r : Side} (H : DirInv s r) (b : Body) : DirInv (write s 
       q := by rw [f1, f2, f3]; exact cover_snoc _ _ _ _ _ rfl hb (cover_built _ _ _ _ _ H.q)
       up := by
         rw [f4]; intro hc
-        rw [f1, f2, f8 hc]; exact cover_snoc _ _ _ _ _ rfl hb (cover_built _ _ _ _ _ (H.up hc))
+        rw [f1, f2, f8 hc, ← List.append_assoc]
+        exact cover_snoc _ _ _ _ _ rfl hb (cover_built _ _ _ _ _ (H.up hc))
       down := by
         rw [f4]; intro hc
         obtain ⟨g1, g2, g3⟩ := f9 hc
         obtain ⟨d1, d2, d3⟩ := H.down hc
         rw [g1, g2, g3, f1]; exact ⟨d1, noGap_built _ _ _ _ d2, d3⟩
-      acks := H.acks
+      acks := by rw [f12]; exact H.acks
       pu := by
         rw [f4]; intro hc hp
         by_cases hu : s.unsent = []
         · exact f10 hu
         · rw [f11 hu] at hp; exact absurd (H.pu hc hp) hu }
 
-theorem dirInv_use {s s' r : Side} (H : DirInv s r) (hc : s.conn = false) (k : Nat)
-    (hs : useConnection s k = .ok s') : DirInv s' r := by
-  obtain ⟨hu, _, hp⟩ := H.down hc
+/-- `use_connection` on a side that has nothing parked any more -/
+theorem use_spec {s s' : Side} (k : Nat) (hu : s.unsent = []) (hp : s.paused = true)
+    (hs : useConnection s k = .ok s') :
+    s'.queue = s.queue ∧ s'.next = s.next ∧ s'.conn = true ∧ s'.high = s.high ∧
+    s'.dispatched = s.dispatched ∧ s'.built = s.built ∧ acksOf s'.out = [] ∧
+    dataOf s'.out ++ s'.unsent = s.queue ∧ (s'.paused = false → s'.unsent = []) ∧
+    s'.parked = s.parked ∧ s'.l4 = s.l4 := by
   unfold useConnection at hs
   simp only [hu, ne_eq, not_true_eq_false, ↓reduceIte, List.nil_append, Except.ok.injEq] at hs
   unfold resumeProducing at hs
   simp only [hp, Bool.not_true, Bool.false_eq_true, ↓reduceIte] at hs
-  obtain ⟨d1, d2, d3, _, _, d6, _, d8, d9⟩ :=
+  obtain ⟨d1, d2, d3, d4, d5, d6, d7, d8, d9, d10, d11⟩ :=
     drain_spec s.queue { s with conn := true, out := [], budget := k, unsent := s.queue, paused := false }
-  rw [hs] at d1 d2 d3 d6 d8 d9
-  simp only [dataOf_nil, List.nil_append] at d1 d2 d3 d6 d8
+  rw [hs] at d1 d2 d3 d4 d5 d6 d7 d8 d9 d10 d11
+  exact ⟨d1, d2, d3, d4, d5, d6, by simpa using d7, by simpa using d8, d9, d10, d11⟩
+
+theorem dirInv_use {s s' r : Side} (H : DirInv s r) (hc : s.conn = false) (k : Nat)
+    (hs : useConnection s k = .ok s') : DirInv s' r := by
+  obtain ⟨hu, hng, hp⟩ := H.down hc
+  obtain ⟨d1, d2, d3, _, _, d6, _, d8, d9, d10, _⟩ := use_spec k hu hp hs
+  rw [noGap_append] at hng
   exact
     { blen := by rw [d6, d2]; exact H.blen
       bseq := by rw [d6]; exact H.bseq
@@ -295,24 +334,12 @@ theorem dirInv_use {s s' r : Side} (H : DirInv s r) (hc : s.conn = false) (k : N
       hhi := by rw [d2]; exact H.hhi
       disp := by rw [d6]; exact H.disp
       q := by rw [d6, d2, d1]; exact H.q
-      up := by intro _; rw [d6, d2, d8]; exact H.q
+      up := by
+        intro _; rw [d6, d2, d8]
+        exact cover_prefix _ _ _ _ _ H.blen H.hhi hng.1 H.q
       down := by rw [d3]; intro h; cases h
-      acks := H.acks
+      acks := by rw [d10]; exact H.acks
       pu := fun _ hp' => d9 hp' }
-
-theorem use_recv {s s' : Side} (k : Nat) (hs : useConnection s k = .ok s') :
-    s'.high = s.high ∧ s'.dispatched = s.dispatched ∧ acksOf s'.out = [] := by
-  unfold useConnection at hs
-  by_cases hu : s.unsent = []
-  · simp only [hu, ne_eq, not_true_eq_false, ↓reduceIte, List.nil_append, Except.ok.injEq] at hs
-    unfold resumeProducing at hs
-    split at hs
-    · subst hs; simp
-    · obtain ⟨_, _, _, d4, d5, _, d7, _, _⟩ :=
-        drain_spec s.queue { s with conn := true, out := [], budget := k, unsent := s.queue, paused := false }
-      rw [hs] at d4 d5 d7
-      exact ⟨d4, d5, by simpa using d7⟩
-  · simp [hu] at hs
 
 theorem dirInv_lose {s s' r : Side} (H : DirInv s r) (hs : stopUsingConnection s = .ok s') : DirInv s' r := by
   unfold stopUsingConnection at hs
@@ -324,7 +351,7 @@ theorem dirInv_lose {s s' r : Side} (H : DirInv s r) (hs : stopUsingConnection s
     simp only [Except.ok.injEq] at hs
     subst hs
     have hup := (H.up hc).1
-    rw [noGap_append] at hup
+    rw [← List.append_assoc, noGap_append] at hup
     exact
       { blen := H.blen, bseq := H.bseq, hlo := H.hlo, hhi := H.hhi, disp := H.disp, q := H.q
         up := by intro h; cases h
@@ -333,7 +360,8 @@ theorem dirInv_lose {s s' r : Side} (H : DirInv s r) (hs : stopUsingConnection s
         pu := by intro h; cases h }
 
 theorem lose_recv {s s' : Side} (hs : stopUsingConnection s = .ok s') :
-    s'.high = s.high ∧ s'.dispatched = s.dispatched ∧ s'.out = s.out := by
+    s'.high = s.high ∧ s'.dispatched = s.dispatched ∧ s'.out = s.out ∧ s'.parked = s.parked ∧
+    s'.built = s.built ∧ s'.conn = false ∧ s'.l4 = s.l4 := by
   unfold stopUsingConnection at hs
   split at hs
   · cases hs
@@ -350,14 +378,14 @@ theorem dirInv_pause {s r : Side} (H : DirInv s r) : DirInv (pauseProducing s) r
       pu := by intro _ h; cases h }
 
 theorem dirInv_budget {s r : Side} (H : DirInv s r) (k : Nat) : DirInv { s with budget := k } r :=
-  DirInv.congr (s := s) (r := r) ⟨rfl, rfl, rfl, rfl, rfl, rfl, rfl⟩ ⟨rfl, rfl, fun _ h => h⟩ H
+  DirInv.congr (s := s) (r := r) ⟨rfl, rfl, rfl, rfl, rfl, rfl⟩ ⟨rfl, rfl⟩ rfl (fun _ h => h) H
 
 theorem dirInv_resume {s r : Side} (H : DirInv s r) (hc : s.conn = true) : DirInv (resumeProducing s) r := by
   unfold resumeProducing
   split
   · exact H
-  · obtain ⟨d1, d2, d3, _, _, d6, _, d8, d9⟩ := drain_spec s.unsent { s with paused := false }
-    simp only at d1 d2 d3 d6 d8
+  · obtain ⟨d1, d2, d3, _, _, d6, _, d8, d9, d10, _⟩ := drain_spec s.unsent { s with paused := false }
+    simp only at d1 d2 d3 d6 d8 d10
     exact
       { blen := by rw [d6, d2]; exact H.blen
         bseq := by rw [d6]; exact H.bseq
@@ -367,17 +395,19 @@ theorem dirInv_resume {s r : Side} (H : DirInv s r) (hc : s.conn = true) : DirIn
         q := by rw [d6, d2, d1]; exact H.q
         up := by intro _; rw [d6, d2, d8]; exact H.up hc
         down := by rw [d3, hc]; intro h; cases h
-        acks := H.acks
+        acks := by rw [d10]; exact H.acks
         pu := fun _ hp' => d9 hp' }
 
 theorem resume_recv (s : Side) :
     (resumeProducing s).high = s.high ∧ (resumeProducing s).dispatched = s.dispatched ∧
-    acksOf (resumeProducing s).out = acksOf s.out := by
+    acksOf (resumeProducing s).out = acksOf s.out ∧ (resumeProducing s).parked = s.parked ∧
+    (resumeProducing s).built = s.built ∧ (resumeProducing s).conn = s.conn ∧
+    (resumeProducing s).l4 = s.l4 := by
   unfold resumeProducing
   split
   · simp
-  · obtain ⟨_, _, _, d4, d5, _, d7, _, _⟩ := drain_spec s.unsent { s with paused := false }
-    exact ⟨d4, d5, d7⟩
+  · obtain ⟨_, _, d3, d4, d5, d6, d7, _, _, d10, d11⟩ := drain_spec s.unsent { s with paused := false }
+    exact ⟨d4, d5, d7, d10, d6, d3, d11⟩
 
 /-- an ack at or below the receiver's watermark retires only records the receiver already has -/
 theorem dirInv_ack {s r : Side} (H : DirInv s r) (k : Nat) (hk : (k : Int) ≤ r.high) :
@@ -399,8 +429,9 @@ theorem dirInv_ack {s r : Side} (H : DirInv s r) (k : Nat) (hk : (k : Int) ≤ r
       up := by
         intro hc
         have h := H.up hc
-        rw [split s.unsent] at h
-        exact cover_drop_old _ _ _ _ _ _ (old s.unsent) h
+        rw [split s.unsent, ← List.append_assoc] at h
+        have := cover_drop_old _ _ _ _ _ _ (old s.unsent) h
+        rwa [List.append_assoc] at this
       down := by
         intro hc
         obtain ⟨d1, d2, d3⟩ := H.down hc
@@ -433,7 +464,8 @@ theorem gotRecord_msg_recv (r : Side) (x : Rec) :
     (gotRecord r (.msg x)).high = max r.high (x.seqnum : Int) ∧
     (gotRecord r (.msg x)).dispatched =
       (if (x.seqnum : Int) ≤ r.high then r.dispatched else r.dispatched ++ [x]) ∧
-    (∀ k ∈ acksOf (gotRecord r (.msg x)).out, k ∈ acksOf r.out ∨ k = x.seqnum) := by
+    (∀ k ∈ acksOf (gotRecord r (.msg x)).out, k ∈ acksOf r.out ∨ k = x.seqnum) ∧
+    (gotRecord r (.msg x)).parked = r.parked := by
   unfold gotRecord sendIfConnected isRecordOld updateAckWatermark
   by_cases hc : r.conn = true <;> by_cases old : (x.seqnum : Int) ≤ r.high <;>
     simp [hc, old, connSend_eq]
@@ -449,22 +481,37 @@ theorem gotRecord_msg_send (r : Side) (x : Rec) :
     (gotRecord r (.msg x)).conn = (sendIfConnected r (.ack x.seqnum)).conn ∧
     (gotRecord r (.msg x)).paused = (sendIfConnected r (.ack x.seqnum)).paused ∧
     (gotRecord r (.msg x)).built = (sendIfConnected r (.ack x.seqnum)).built ∧
-    dataOf (gotRecord r (.msg x)).out = dataOf (sendIfConnected r (.ack x.seqnum)).out := by
+    dataOf (gotRecord r (.msg x)).out = dataOf (sendIfConnected r (.ack x.seqnum)).out ∧
+    (∀ k ∈ acksOf (gotRecord r (.msg x)).parked, k ∈ acksOf (sendIfConnected r (.ack x.seqnum)).parked) := by
   unfold gotRecord updateAckWatermark
   simp only
   split <;> simp
 
-/-- the head of the data in flight reaches `got_record` -/
-theorem dirInv_recv {s r : Side} (H : DirInv s r) (x : Rec) (rest : List Wire)
-    (hout : s.out = .msg x :: rest) : DirInv { s with out := rest } (gotRecord r (.msg x)) := by
-  have hd : dataOf s.out = x :: dataOf rest := by rw [hout]; rfl
-  obtain ⟨g1, g2, g3⟩ := gotRecord_msg_recv r x
+theorem sendIfConnected_frame (s : Side) (w : Wire) :
+    (sendIfConnected s w).parked = s.parked ∧ (sendIfConnected s w).built = s.built ∧
+    (sendIfConnected s w).conn = s.conn := by
+  unfold sendIfConnected
+  split <;> simp [connSend_eq]
+
+/-- a record that is first in line for the receiver — parked on its new connection, or the head of
+    what is in flight when nothing is parked — reaches `got_record` -/
+theorem dirInv_recv {s s0 r r0 : Side} (H : DirInv s r) (x : Rec)
+    (hstream : dataOf r.parked ++ dataOf s.out = x :: (dataOf r0.parked ++ dataOf s0.out))
+    (hs : s0.queue = s.queue ∧ s0.unsent = s.unsent ∧ s0.next = s.next ∧ s0.conn = s.conn ∧
+          s0.paused = s.paused ∧ s0.built = s.built ∧ (∀ k ∈ acksOf s0.parked, k ∈ acksOf s.parked))
+    (hr : r0.high = r.high ∧ r0.dispatched = r.dispatched ∧ (∀ k ∈ acksOf r0.out, k ∈ acksOf r.out)) :
+    DirInv s0 (gotRecord r0 (.msg x)) := by
+  obtain ⟨a1, a2, a3, a4, a5, a6, a8⟩ := hs
+  obtain ⟨b1, b2, b3⟩ := hr
+  obtain ⟨g1, g2, g3, g4⟩ := gotRecord_msg_recv r0 x
+  rw [b1] at g1
+  rw [b1, b2] at g2
   have hx : (x.seqnum : Int) ≤ r.high + 1 ∧ s.built[x.seqnum]? = some x ∧
-      NoGap s.built (max r.high x.seqnum) (dataOf rest) := by
+      NoGap s.built (max r.high x.seqnum) (dataOf r0.parked ++ dataOf s0.out) := by
     cases hc : s.conn
-    · have := (H.down hc).2.1; rw [hd] at this; exact this
+    · have := (H.down hc).2.1; rw [hstream] at this; exact this
     · have := (H.up hc).1
-      rw [hd] at this
+      rw [← List.append_assoc, hstream] at this
       simp only [List.cons_append, NoGap] at this
       rw [noGap_append] at this
       exact ⟨this.1, this.2.1, this.2.2.1⟩
@@ -473,70 +520,159 @@ theorem dirInv_recv {s r : Side} (H : DirInv s r) (x : Rec) (rest : List Wire)
   have hlo := H.hlo
   have hhi := H.hhi
   exact
-    { blen := H.blen
-      bseq := H.bseq
+    { blen := by rw [a6, a3]; exact H.blen
+      bseq := by rw [a6]; exact H.bseq
       hlo := by rw [g1]; omega
-      hhi := by rw [g1]; show max r.high (x.seqnum : Int) + 1 ≤ (s.next : Int); omega
+      hhi := by rw [g1, a3]; omega
       disp := by
-        rw [g1, g2]
-        show _ = s.built.take _
+        rw [g1, g2, a6]
         by_cases old : (x.seqnum : Int) ≤ r.high
         · have e : max r.high (x.seqnum : Int) = r.high := by omega
           rw [if_pos old, e]; exact H.disp
         · have e : (max r.high (x.seqnum : Int) + 1).toNat = (r.high + 1).toNat + 1 := by omega
           have e2 : (r.high + 1).toNat = x.seqnum := by omega
           rw [if_neg old, e, List.take_add_one, e2, hx.2.1, ← e2, ← H.disp]; rfl
-      q := by rw [g1]; exact cover_advance _ _ _ _ _ (by omega) (show max r.high (x.seqnum : Int) + 1 ≤ (s.next : Int) by omega) H.q
+      q := by rw [g1, a6, a3, a1]; exact cover_advance _ _ _ _ _ (by omega) (by omega) H.q
       up := by
-        intro hc
-        rw [g1]
+        rw [a4]; intro hc
+        rw [g1, g4, a6, a3, a2]
         have h := H.up hc
-        rw [hd] at h
-        exact ⟨by have := h.1; simp only [List.cons_append, NoGap] at this; exact this.2.2,
-               by have := h.2; simpa only [List.cons_append, top] using this⟩
-      down := fun hc => ⟨(H.down hc).1, by rw [g1]; exact hx.2.2, (H.down hc).2.2⟩
+        rw [← List.append_assoc, hstream] at h
+        refine ⟨?_, ?_⟩
+        · have := h.1; simp only [List.cons_append, NoGap] at this
+          rw [List.append_assoc] at this; exact this.2.2
+        · have := h.2; simp only [List.cons_append, top] at this
+          rw [List.append_assoc] at this; exact this
+      down := by
+        rw [a4]; intro hc
+        rw [g1, g4, a6, a2, a5]
+        exact ⟨(H.down hc).1, hx.2.2, (H.down hc).2.2⟩
       acks := by
         intro k hk
         rw [g1]
-        rcases g3 k hk with h | h
-        · have := H.acks k h; omega
-        · subst h; omega
-      pu := H.pu }
+        rcases hk with hk | hk
+        · have := H.acks k (Or.inl (a8 k hk)); omega
+        · rcases g3 k hk with h | h
+          · have := H.acks k (Or.inr (b3 k h)); omega
+          · subst h; omega
+      pu := by rw [a4, a5, a2]; exact H.pu }
+
 
 /-! ### the two-sided world -/
 
-/-- the invariant: both directions are instances of the same one-direction invariant -/
-def WInv (w : World) : Prop := DirInv w.a w.b ∧ DirInv w.b w.a
+theorem gotRecord_frame (s : Side) (m : Wire) :
+    (gotRecord s m).conn = s.conn ∧ (gotRecord s m).parked = s.parked ∧ (gotRecord s m).built = s.built := by
+  cases m with
+  | ack k => simp [gotRecord, handleAck]
+  | msg x =>
+    obtain ⟨_, _, _, f4, _, f6, _, _⟩ := gotRecord_msg_send s x
+    obtain ⟨g1, g2, g3⟩ := sendIfConnected_frame s (.ack x.seqnum)
+    exact ⟨by rw [f4, g3], (gotRecord_msg_recv s x).2.2.2, by rw [f6, g2]⟩
 
-theorem wInv_init : WInv World.init := ⟨dirInv_init, dirInv_init⟩
+/-- both directions survive when the oldest parked record is handed to `got_record` -/
+theorem pair_unpark {a b : Side} (Hab : DirInv a b) (Hba : DirInv b a) (m : Wire) (rest : List Wire)
+    (hp : a.parked = m :: rest) :
+    DirInv (gotRecord { a with parked := rest } m) b ∧ DirInv b (gotRecord { a with parked := rest } m) := by
+  cases m with
+  | ack k =>
+    have hk : (k : Int) ≤ b.high := Hab.acks k (Or.inl (by rw [hp]; simp))
+    have Hab0 : DirInv { a with parked := rest } b :=
+      DirInv.congr (s := a) (r := b) ⟨rfl, rfl, rfl, rfl, rfl, rfl⟩ ⟨rfl, rfl⟩ rfl
+        (by intro j hj; rcases hj with hj | hj
+            · exact Or.inl (by rw [hp]; simp [hj])
+            · exact Or.inr hj) Hab
+    exact ⟨dirInv_ack Hab0 k hk,
+      DirInv.congr (s := b) (r := a) ⟨rfl, rfl, rfl, rfl, rfl, rfl⟩ ⟨rfl, rfl⟩
+        (by show dataOf rest ++ dataOf b.out = dataOf a.parked ++ dataOf b.out; rw [hp]; rfl)
+        (fun _ h => h) Hba⟩
+  | msg x =>
+    have Hab0 : DirInv { a with parked := rest } b :=
+      DirInv.congr (s := a) (r := b) ⟨rfl, rfl, rfl, rfl, rfl, rfl⟩ ⟨rfl, rfl⟩ rfl
+        (by intro j hj; rcases hj with hj | hj
+            · exact Or.inl (by rw [hp]; simpa using hj)
+            · exact Or.inr hj) Hab
+    obtain ⟨f1, f2, f3, f4, f5, f6, f7, f8⟩ := gotRecord_msg_send { a with parked := rest } x
+    refine ⟨DirInv.congr (s := sendIfConnected { a with parked := rest } (.ack x.seqnum)) (r := b)
+        ⟨f1, f2, f3, f4, f5, f6⟩ ⟨rfl, rfl⟩ (by rw [f7])
+        (by intro j hj; rcases hj with hj | hj
+            · exact Or.inl (f8 j hj)
+            · exact Or.inr hj) (dirInv_sendAck Hab0 x.seqnum), ?_⟩
+    exact dirInv_recv Hba x (by rw [hp]; rfl) ⟨rfl, rfl, rfl, rfl, rfl, rfl, fun _ h => h⟩ ⟨rfl, rfl, fun _ h => h⟩
 
-theorem wInv_swap {w : World} (H : WInv w) : WInv w.swap := ⟨H.2, H.1⟩
+theorem processInboundQueue_pair (L : List Wire) : ∀ {a b : Side}, DirInv a b → DirInv b a → a.parked = L →
+    DirInv (processInboundQueue a L) b ∧ DirInv b (processInboundQueue a L) := by
+  induction L with
+  | nil =>
+    intro a b Hab Hba hp
+    simp only [processInboundQueue]
+    exact ⟨DirInv.congr (s := a) (r := b) ⟨rfl, rfl, rfl, rfl, rfl, rfl⟩ ⟨rfl, rfl⟩ rfl
+              (by intro j hj; rcases hj with hj | hj
+                  · simp at hj
+                  · exact Or.inr hj) Hab,
+           DirInv.congr (s := b) (r := a) ⟨rfl, rfl, rfl, rfl, rfl, rfl⟩ ⟨rfl, rfl⟩
+              (by show dataOf [] ++ dataOf b.out = dataOf a.parked ++ dataOf b.out; rw [hp]) (fun _ h => h) Hba⟩
+  | cons m rest ih =>
+    intro a b Hab Hba hp
+    obtain ⟨h1, h2⟩ := pair_unpark Hab Hba m rest hp
+    simp only [processInboundQueue]
+    exact ih h1 h2 (gotRecord_frame _ m).2.1
+
+theorem processInboundQueue_frame (L : List Wire) : ∀ (a : Side),
+    (processInboundQueue a L).conn = a.conn ∧ (processInboundQueue a L).parked = [] ∧
+    (processInboundQueue a L).built = a.built := by
+  induction L with
+  | nil => intro a; simp [processInboundQueue]
+  | cons m rest ih =>
+    intro a
+    simp only [processInboundQueue]
+    obtain ⟨i1, i2, i3⟩ := ih (gotRecord { a with parked := rest } m)
+    obtain ⟨g1, _, g3⟩ := gotRecord_frame { a with parked := rest } m
+    exact ⟨by rw [i1, g1], i2, by rw [i3, g3]⟩
+
+/-- the invariant: both directions are instances of the same one-direction invariant, and a
+    connected side has nothing parked -/
+def WInv (w : World) : Prop :=
+  DirInv w.a w.b ∧ DirInv w.b w.a ∧ (w.a.conn = true → w.a.parked = []) ∧ (w.b.conn = true → w.b.parked = [])
+
+theorem wInv_init : WInv World.init := ⟨dirInv_init, dirInv_init, fun _ => rfl, fun _ => rfl⟩
+
+theorem wInv_swap {w : World} (H : WInv w) : WInv w.swap := ⟨H.2.1, H.1, H.2.2.2, H.2.2.1⟩
 
 theorem stepA_inv {w w' : World} {act : Act} (H : WInv w) (hs : stepA w act = .ok w') : WInv w' := by
-  obtain ⟨Hab, Hba⟩ := H
+  obtain ⟨Hab, Hba, Pa, Pb⟩ := H
   cases act with
   | write b =>
     simp only [stepA, Except.ok.injEq] at hs
     subst hs
-    obtain ⟨_, _, _, _, f5, f6, f7, _⟩ := write_fields w.a b
+    obtain ⟨_, _, _, f4, f5, f6, f7, _, _, _, _, f12, _⟩ := write_fields w.a b
     exact ⟨dirInv_write Hab b,
-      DirInv.congr (s := w.b) (r := w.a) ⟨rfl, rfl, rfl, rfl, rfl, rfl, rfl⟩ ⟨f5, f6, by rw [f7]; exact fun _ h => h⟩ Hba⟩
+      DirInv.congr (s := w.b) (r := w.a) ⟨rfl, rfl, rfl, rfl, rfl, rfl⟩ ⟨f5, f6⟩ (by rw [f12])
+        (by rw [f7]; exact fun _ h => h) Hba,
+      by rw [f4, f12]; exact Pa, Pb⟩
   | use k =>
     simp only [stepA] at hs
     split at hs
     · cases hs
     · next hc =>
       have hc : w.a.conn = false := by simpa using hc
-      cases hu : useConnection w.a k with
+      cases hu : useConnection (processInboundQueue w.a w.a.parked) k with
       | error e => rw [hu] at hs; cases hs
       | ok a' =>
         rw [hu] at hs
         simp only [Except.map, Except.ok.injEq] at hs
         subst hs
-        obtain ⟨r1, r2, r3⟩ := use_recv k hu
-        exact ⟨dirInv_use Hab hc k hu,
-          DirInv.congr (s := w.b) (r := w.a) ⟨rfl, rfl, rfl, rfl, rfl, rfl, rfl⟩
-            ⟨r1, r2, by rw [r3]; intro _ h; cases h⟩ Hba⟩
+        obtain ⟨Q1, Q2⟩ := processInboundQueue_pair w.a.parked Hab Hba rfl
+        obtain ⟨p1, p2, _⟩ := processInboundQueue_frame w.a.parked w.a
+        have hc' : (processInboundQueue w.a w.a.parked).conn = false := by rw [p1, hc]
+        obtain ⟨du, _, dp⟩ := Q1.down hc'
+        obtain ⟨_, _, _, r1, r2, _, r3, _, _, r10, _⟩ := use_spec k du dp hu
+        exact ⟨dirInv_use Q1 hc' k hu,
+          DirInv.congr (s := w.b) (r := processInboundQueue w.a w.a.parked) ⟨rfl, rfl, rfl, rfl, rfl, rfl⟩
+            ⟨r1, r2⟩ (by rw [r10])
+            (by rw [r3]; intro j hj; rcases hj with hj | hj
+                · exact Or.inl hj
+                · cases hj) Q2,
+          fun _ => by rw [r10, p2], Pb⟩
   | lose =>
     simp only [stepA] at hs
     cases hu : stopUsingConnection w.a with
@@ -545,18 +681,20 @@ theorem stepA_inv {w w' : World} {act : Act} (H : WInv w) (hs : stepA w act = .o
       rw [hu] at hs
       simp only [Except.map, Except.ok.injEq] at hs
       subst hs
-      obtain ⟨r1, r2, r3⟩ := lose_recv hu
+      obtain ⟨r1, r2, r3, r4, _, r6, _⟩ := lose_recv hu
       exact ⟨dirInv_lose Hab hu,
-        DirInv.congr (s := w.b) (r := w.a) ⟨rfl, rfl, rfl, rfl, rfl, rfl, rfl⟩
-          ⟨r1, r2, by rw [r3]; exact fun _ h => h⟩ Hba⟩
+        DirInv.congr (s := w.b) (r := w.a) ⟨rfl, rfl, rfl, rfl, rfl, rfl⟩ ⟨r1, r2⟩ (by rw [r4])
+          (by rw [r3]; exact fun _ h => h) Hba,
+        (by rw [r6]; intro h; cases h), Pb⟩
   | pause =>
     simp only [stepA] at hs
     split at hs
     · simp only [Except.ok.injEq] at hs
       subst hs
-      refine ⟨dirInv_pause Hab, ?_⟩
-      rw [pauseProducing_eq]
-      exact DirInv.congr (s := w.b) (r := w.a) ⟨rfl, rfl, rfl, rfl, rfl, rfl, rfl⟩ ⟨rfl, rfl, fun _ h => h⟩ Hba
+      refine ⟨dirInv_pause Hab, ?_, ?_, Pb⟩
+      · rw [pauseProducing_eq]
+        exact DirInv.congr (s := w.b) (r := w.a) ⟨rfl, rfl, rfl, rfl, rfl, rfl⟩ ⟨rfl, rfl⟩ rfl (fun _ h => h) Hba
+      · rw [pauseProducing_eq]; exact Pa
     · cases hs
   | resume k =>
     simp only [stepA] at hs
@@ -564,29 +702,79 @@ theorem stepA_inv {w w' : World} {act : Act} (H : WInv w) (hs : stepA w act = .o
     · next hc =>
       simp only [Except.ok.injEq] at hs
       subst hs
-      obtain ⟨r1, r2, r3⟩ := resume_recv { w.a with budget := k }
+      obtain ⟨r1, r2, r3, r4, _, r6, _⟩ := resume_recv { w.a with budget := k }
       exact ⟨dirInv_resume (dirInv_budget Hab k) hc,
-        DirInv.congr (s := w.b) (r := w.a) ⟨rfl, rfl, rfl, rfl, rfl, rfl, rfl⟩
-          ⟨r1, r2, by rw [r3]; exact fun _ h => h⟩ Hba⟩
+        DirInv.congr (s := w.b) (r := w.a) ⟨rfl, rfl, rfl, rfl, rfl, rfl⟩ ⟨r1, r2⟩ (by rw [r4])
+          (by rw [r3]; exact fun _ h => h) Hba,
+        by rw [r6, r4]; exact Pa, Pb⟩
     · cases hs
   | deliver =>
     simp only [stepA] at hs
     split at hs
     · cases hs
-    · next m rest hout =>
-      simp only [Except.ok.injEq] at hs
+    · next hpk =>
+      have hpk : w.a.parked = [] := by simpa using hpk
+      split at hs
+      · cases hs
+      · next m rest hout =>
+        simp only [Except.ok.injEq] at hs
+        subst hs
+        obtain ⟨g1, g2, _⟩ := gotRecord_frame w.a m
+        refine ⟨?_, ?_, by rw [g1, g2]; exact Pa, Pb⟩
+        · cases m with
+          | ack k =>
+            have hk : (k : Int) ≤ w.b.high := Hab.acks k (Or.inr (by rw [hout]; simp))
+            exact DirInv.congr (s := handleAck w.a k) (r := w.b) ⟨rfl, rfl, rfl, rfl, rfl, rfl⟩ ⟨rfl, rfl⟩ rfl
+                  (by intro j hj; rcases hj with hj | hj
+                      · exact Or.inl hj
+                      · exact Or.inr (by rw [hout]; simp [hj])) (dirInv_ack Hab k hk)
+          | msg x =>
+            obtain ⟨f1, f2, f3, f4, f5, f6, f7, f8⟩ := gotRecord_msg_send w.a x
+            exact DirInv.congr (s := sendIfConnected w.a (.ack x.seqnum)) (r := w.b)
+                  ⟨f1, f2, f3, f4, f5, f6⟩ ⟨rfl, rfl⟩ (by rw [f7])
+                  (by intro j hj; rcases hj with hj | hj
+                      · exact Or.inl (f8 j hj)
+                      · exact Or.inr (by rw [hout]; simpa using hj)) (dirInv_sendAck Hab x.seqnum)
+        · cases m with
+          | ack k =>
+            exact DirInv.congr (s := w.b) (r := w.a) ⟨rfl, rfl, rfl, rfl, rfl, rfl⟩ ⟨rfl, rfl⟩
+                  (by show dataOf w.a.parked ++ dataOf rest = dataOf w.a.parked ++ dataOf w.b.out; rw [hout]; rfl)
+                  (fun _ h => h) Hba
+          | msg x =>
+            exact dirInv_recv Hba x (by rw [hout, hpk]; rfl) ⟨rfl, rfl, rfl, rfl, rfl, rfl, fun _ h => h⟩
+                  ⟨rfl, rfl, fun _ h => h⟩
+  | park =>
+    simp only [stepA] at hs
+    split at hs
+    · cases hs
+    · next hc =>
+      have hc : w.a.conn = false := by simpa using hc
+      split at hs
+      · cases hs
+      · next m rest hout =>
+        simp only [Except.ok.injEq] at hs
+        subst hs
+        refine ⟨?_, ?_, (by intro h; simp only at h; rw [hc] at h; cases h), Pb⟩
+        · exact DirInv.congr (s := w.a) (r := w.b) ⟨rfl, rfl, rfl, rfl, rfl, rfl⟩ ⟨rfl, rfl⟩ rfl
+            (by intro j hj; simp only [acksOf_append] at hj
+                rcases hj with hj | hj
+                · rcases List.mem_append.mp hj with hj | hj
+                  · exact Or.inl hj
+                  · exact Or.inr (by rw [hout]; cases m <;> simp_all)
+                · exact Or.inr (by rw [hout]; cases m <;> simp_all)) Hab
+        · exact DirInv.congr (s := w.b) (r := w.a) ⟨rfl, rfl, rfl, rfl, rfl, rfl⟩ ⟨rfl, rfl⟩
+            (by show dataOf (w.a.parked ++ [m]) ++ dataOf rest = dataOf w.a.parked ++ dataOf w.b.out
+                rw [hout]; cases m <;> simp)
+            (fun _ h => h) Hba
+  | listen n =>
+    simp only [stepA] at hs
+    split at hs
+    · cases hs
+    · simp only [Except.ok.injEq] at hs
       subst hs
-      cases m with
-      | ack k =>
-        have hk : (k : Int) ≤ w.b.high := Hab.acks k (by rw [hout]; simp)
-        exact ⟨DirInv.congr (s := handleAck w.a k) (r := w.b) ⟨rfl, rfl, rfl, rfl, rfl, rfl, rfl⟩
-                  ⟨rfl, rfl, by rw [hout]; intro j hj; simp [hj]⟩ (dirInv_ack Hab k hk),
-               DirInv.congr (s := w.b) (r := w.a) ⟨rfl, rfl, rfl, rfl, rfl, rfl, by rw [hout]; rfl⟩
-                  ⟨rfl, rfl, fun _ h => h⟩ Hba⟩
-      | msg x =>
-        exact ⟨DirInv.congr (s := sendIfConnected w.a (.ack x.seqnum)) (r := w.b) (gotRecord_msg_send w.a x)
-                  ⟨rfl, rfl, by rw [hout]; exact fun _ h => h⟩ (dirInv_sendAck Hab x.seqnum),
-               dirInv_recv Hba x rest hout⟩
+      exact ⟨DirInv.congr (s := w.a) (r := w.b) ⟨rfl, rfl, rfl, rfl, rfl, rfl⟩ ⟨rfl, rfl⟩ rfl (fun _ h => h) Hab,
+             DirInv.congr (s := w.b) (r := w.a) ⟨rfl, rfl, rfl, rfl, rfl, rfl⟩ ⟨rfl, rfl⟩ rfl (fun _ h => h) Hba,
+             Pa, Pb⟩
 
 theorem step_inv {w w' : World} {e : Event} (H : WInv w) (hs : step w e = .ok w') : WInv w' := by
   obtain ⟨x, act⟩ := e
@@ -640,13 +828,13 @@ theorem stepA_built {w w' : World} {act : Act} (hs : stepA w act = .ok w') :
     simp only [stepA] at hs
     split at hs
     · cases hs
-    · cases hu : useConnection w.a k with
+    · cases hu : useConnection (processInboundQueue w.a w.a.parked) k with
       | error e => rw [hu] at hs; cases hs
       | ok a' =>
         rw [hu] at hs
         simp only [Except.map, Except.ok.injEq] at hs
         subst hs
-        simp [use_built k hu, actWrites]
+        simp [use_built k hu, actWrites, (processInboundQueue_frame w.a.parked w.a).2.2]
   | lose =>
     simp only [stepA] at hs
     cases hu : stopUsingConnection w.a with
@@ -655,12 +843,7 @@ theorem stepA_built {w w' : World} {act : Act} (hs : stepA w act = .ok w') :
       rw [hu] at hs
       simp only [Except.map, Except.ok.injEq] at hs
       subst hs
-      unfold stopUsingConnection at hu
-      split at hu
-      · cases hu
-      · rw [pauseProducing_eq] at hu
-        simp only [Except.ok.injEq] at hu
-        subst hu; simp [actWrites]
+      simp [(lose_recv hu).2.2.2.2.1, actWrites]
   | pause =>
     simp only [stepA] at hs
     split at hs
@@ -672,22 +855,32 @@ theorem stepA_built {w w' : World} {act : Act} (hs : stepA w act = .ok w') :
     split at hs
     · simp only [Except.ok.injEq] at hs
       subst hs
-      unfold resumeProducing
-      split <;> simp [drain_built, actWrites]
+      simp [(resume_recv { w.a with budget := k }).2.2.2.2.1, actWrites]
     · cases hs
   | deliver =>
     simp only [stepA] at hs
     split at hs
     · cases hs
-    · next m rest hout =>
-      simp only [Except.ok.injEq] at hs
-      subst hs
-      cases m with
-      | ack k => simp [gotRecord, handleAck, actWrites]
-      | msg x =>
-        have := (gotRecord_msg_send w.a x).2.2.2.2.2.1
-        simp only [this, sendIfConnected]
-        split <;> simp [connSend_eq, actWrites]
+    · split at hs
+      · cases hs
+      · next m rest hout =>
+        simp only [Except.ok.injEq] at hs
+        subst hs
+        simp [(gotRecord_frame w.a m).2.2, actWrites]
+  | park =>
+    simp only [stepA] at hs
+    split at hs
+    · cases hs
+    · split at hs
+      · cases hs
+      · simp only [Except.ok.injEq] at hs
+        subst hs; simp [actWrites]
+  | listen n =>
+    simp only [stepA] at hs
+    split at hs
+    · cases hs
+    · simp only [Except.ok.injEq] at hs
+      subst hs; simp [actWrites, listen]
 
 theorem step_built {w w' : World} {e : Event} (hs : step w e = .ok w') :
     w'.a.built.map (·.body) = w.a.built.map (·.body) ++ issued .A [e] ∧
@@ -739,10 +932,10 @@ theorem dataOf_eq_nil {l : List Wire} (h : ∀ r, Wire.msg r ∉ l) : dataOf l =
     | ack k => simp only [dataOf_ack]; exact ih (fun r hr => h r (by simp [hr]))
 
 theorem drained_all {s r : Side} (H : DirInv s r) (hc : s.conn = true) (hp : s.paused = false)
-    (hd : dataOf s.out = []) : r.dispatched = s.built := by
+    (hd : dataOf s.out = []) (hk : dataOf r.parked = []) : r.dispatched = s.built := by
   have hu := H.pu hc hp
   have h := (H.up hc).2
-  rw [hd, hu] at h
+  rw [hd, hu, hk] at h
   simp only [List.append_nil, top] at h
   have e : (r.high + 1).toNat = s.built.length := by rw [H.blen]; omega
   rw [H.disp, e, List.take_length]
@@ -760,19 +953,23 @@ theorem drain_budget0 (U : List Rec) : ∀ (s : Side), s.budget = 0 → s.paused
     · rw [connSend_eq]; simp [hb, hp]
 
 /-- from any state satisfying the invariant, side A can settle on a connection whose transport
-    never pauses: connect if down, resume if up -/
+    never pauses: connect if down (its Connector selects the connection, draining what is parked),
+    resume if up; the peer is not touched -/
 theorem settle {w : World} (H : WInv w) :
     ∃ w1, step w (.A, if w.a.conn then .resume 0 else .use 0) = .ok w1 ∧
-      w1.a.conn = true ∧ w1.a.paused = false := by
+      w1.a.conn = true ∧ w1.a.paused = false ∧ w1.b = w.b := by
   cases hc : w.a.conn
-  · obtain ⟨hu, _, hp⟩ := H.1.down hc
+  · obtain ⟨Q1, _⟩ := processInboundQueue_pair w.a.parked H.1 H.2.1 rfl
+    obtain ⟨p1, _, _⟩ := processInboundQueue_frame w.a.parked w.a
+    have hc' : (processInboundQueue w.a w.a.parked).conn = false := by rw [p1, hc]
+    obtain ⟨hu, _, hp⟩ := Q1.down hc'
     simp only [Bool.false_eq_true, ↓reduceIte, step, stepA, hc, useConnection, hu, ne_eq, not_true_eq_false,
       List.nil_append, Except.map, resumeProducing, hp, Bool.not_true]
-    refine ⟨_, rfl, ?_, ?_⟩
+    refine ⟨_, rfl, ?_, ?_, rfl⟩
     · exact (drain_spec _ _).2.2.1
     · exact (drain_budget0 _ _ rfl rfl).1
   · simp only [↓reduceIte, step, stepA, hc, resumeProducing]
-    refine ⟨_, rfl, ?_, ?_⟩
+    refine ⟨_, rfl, ?_, ?_, rfl⟩
     · split
       · rfl
       · rw [(drain_spec _ _).2.2.1]
@@ -780,24 +977,28 @@ theorem settle {w : World} (H : WInv w) :
       · next h => simpa using h
       · exact (drain_budget0 _ _ rfl rfl).1
 
-/-- delivering everything A has in flight to B always succeeds and leaves A's channel empty -/
-theorem deliverB_run (n : Nat) : ∀ (w : World), w.a.out.length = n →
+/-- delivering everything A has in flight to B (which has nothing parked) always succeeds and
+    leaves A's channel empty -/
+theorem deliverB_run (n : Nat) : ∀ (w : World), w.a.out.length = n → w.b.parked = [] →
     ∃ w', run w (List.replicate n (.B, .deliver)) = .ok w' ∧ w'.a.out = [] ∧
-      w'.a.conn = w.a.conn ∧ w'.a.paused = w.a.paused := by
+      w'.a.conn = w.a.conn ∧ w'.a.paused = w.a.paused ∧ w'.b.parked = [] := by
   induction n with
   | zero =>
-    intro w h
-    exact ⟨w, rfl, List.eq_nil_of_length_eq_zero h, rfl, rfl⟩
+    intro w h hb
+    exact ⟨w, rfl, List.eq_nil_of_length_eq_zero h, rfl, rfl, hb⟩
   | succ n ih =>
-    intro w h
+    intro w h hb
     cases hout : w.a.out with
     | nil => rw [hout] at h; cases h
     | cons m rest =>
       have hlen : ({ a := { w.a with out := rest }, b := gotRecord w.b m } : World).a.out.length = n := by
         rw [hout] at h; simpa using h
-      obtain ⟨w', r1, r2, r3, r4⟩ := ih _ hlen
-      refine ⟨w', ?_, r2, r3, r4⟩
-      simp only [List.replicate_succ, run, step, stepA, World.swap, hout, Except.map]
+      have hb' : ({ a := { w.a with out := rest }, b := gotRecord w.b m } : World).b.parked = [] := by
+        show (gotRecord w.b m).parked = []; rw [(gotRecord_frame w.b m).2.1, hb]
+      obtain ⟨w', r1, r2, r3, r4, r5⟩ := ih _ hlen hb'
+      refine ⟨w', ?_, r2, r3, r4, r5⟩
+      simp only [List.replicate_succ, run, step, stepA, World.swap, hout, hb, ne_eq, not_true_eq_false,
+        ↓reduceIte, Except.map]
       exact r1
 
 /-- every enabled event succeeds: in particular `assert not self._queued_unsent` never fires -/
@@ -807,7 +1008,10 @@ theorem enabledA_ok {w : World} {act : Act} (H : WInv w) (he : enabledA w act = 
   | write b => exact ⟨_, rfl⟩
   | use k =>
     have hc : w.a.conn = false := by simpa [enabledA] using he
-    obtain ⟨hu, _, _⟩ := H.1.down hc
+    obtain ⟨Q1, _⟩ := processInboundQueue_pair w.a.parked H.1 H.2.1 rfl
+    obtain ⟨p1, _, _⟩ := processInboundQueue_frame w.a.parked w.a
+    have hc' : (processInboundQueue w.a w.a.parked).conn = false := by rw [p1, hc]
+    obtain ⟨hu, _, _⟩ := Q1.down hc'
     simp [stepA, hc, useConnection, hu, Except.map]
   | lose =>
     have hc : w.a.conn = true := by simpa [enabledA] using he
@@ -819,9 +1023,18 @@ theorem enabledA_ok {w : World} {act : Act} (H : WInv w) (he : enabledA w act = 
     have hc : w.a.conn = true := by simpa [enabledA] using he
     simp [stepA, hc]
   | deliver =>
+    simp only [enabledA, Bool.and_eq_true, Bool.not_eq_eq_eq_not, Bool.not_true, List.isEmpty_iff] at he
     cases hout : w.b.out with
-    | nil => simp [enabledA, hout] at he
-    | cons m rest => simp [stepA, hout]
+    | nil => simp [hout] at he
+    | cons m rest => simp [stepA, hout, he.2]
+  | park =>
+    simp only [enabledA, Bool.and_eq_true, Bool.not_eq_eq_eq_not, Bool.not_true] at he
+    cases hout : w.b.out with
+    | nil => simp [hout] at he
+    | cons m rest => simp [stepA, hout, he.1]
+  | listen n =>
+    have hn : ¬ (n ∈ w.a.l4.factories) := by simpa [enabledA] using he
+    simp [stepA, hn]
 
 theorem enabled_ok {w : World} {e : Event} (H : WInv w) (he : enabled w e = true) :
     ∃ w', step w e = .ok w' := by
@@ -831,5 +1044,4 @@ theorem enabled_ok {w : World} {e : Event} (H : WInv w) (he : enabled w e = true
   | B =>
     obtain ⟨w1, h1⟩ := enabledA_ok (wInv_swap H) he
     exact ⟨w1.swap, by simp [step, h1, Except.map]⟩
-
 end WV.Proofs.C10
